@@ -105,7 +105,7 @@ int cp_phpe_enc(bn_t c, const bn_t m, const bn_t pub) {
 	bn_null(r);
 	bn_null(s);
 
-	if (pub == NULL || bn_bits(m) > bn_bits(pub)) {
+	if (pub == NULL || bn_sign(m) == RLC_NEG || bn_cmp(m, pub) != RLC_LT) {
 		return RLC_ERR;
 	}
 
